@@ -55,7 +55,7 @@ func suiteMutate(tier string, seed uint64, model string) *Report {
 	r := NewRng(seed)
 	n := 16000
 	if tier == "thorough" {
-		n = 200000
+		n = 800000
 	}
 	type cs struct {
 		op   int
@@ -233,8 +233,10 @@ func suiteMutate(tier string, seed uint64, model string) *Report {
 	// Modify disagreements whose path has a filter below a descent are attributed after the loop
 	// (one more model batch): known class "modify-filter-sees-modified-descendants"
 	type liveCand struct {
-		d   Disagreement
-		req string
+		d        Disagreement
+		req      string
+		reqIncl  string // the same traversal with the inclusive slice rule ("" if the path has no slice)
+		filterBD bool   // a filter below a descent
 	}
 	var liveCands []liveCand
 	for i, c := range cases {
@@ -252,10 +254,15 @@ func suiteMutate(tier string, seed uint64, model string) *Report {
 		hasSlice := pathHas(c.path, "s")
 		// known class: equal to the specification variant with the inclusive-end slice rule
 		filterRoot := c.op == 2 && c.path[len(c.path)-1].Kind == "f" && strings.Contains(c.path[len(c.path)-1].Eq.Sexp(), "(p R")
-		liveShape := c.op >= 3 && !c.one && !hasSlice && filterBelowDescentNoRoot(c.path)
+		filterBD := filterBelowDescentNoRoot(c.path)
+		liveShape := c.op >= 3 && !c.one && pathHas(c.path, "D") && !filterHasRootOperand(c.path) && (filterBD || hasSlice)
 		add := func(d Disagreement) {
 			if d.Class == "" && liveShape && d.Kind == "impl-vs-spec:mutate" {
-				liveCands = append(liveCands, liveCand{d, fmt.Sprintf("mutatel\t%d\t%s\t%s\t%s", c.op, PathSexp(c.path), Show(c.data), Show(c.val))})
+				lc := liveCand{d: d, filterBD: filterBD, req: fmt.Sprintf("mutatel\t%d\t%s\t%s\t%s", c.op, PathSexp(c.path), Show(c.data), Show(c.val))}
+				if hasSlice {
+					lc.reqIncl = fmt.Sprintf("mutatelk\t%d\t%s\t%s\t%s", c.op, PathSexp(c.path), Show(c.data), Show(c.val))
+				}
+				liveCands = append(liveCands, lc)
 				return
 			}
 			rep.Add(d)
@@ -382,7 +389,7 @@ func suiteMutate(tier string, seed uint64, model string) *Report {
 				kind = "impl-vs-spec:mutate-one"
 			}
 			cl := classOf(got, c.one)
-			if cl == "" && !c.one && c.op >= 2 && !hasSlice && filterHasRootOperand(c.path) {
+			if cl == "" && !c.one && c.op >= 2 && filterHasRootOperand(c.path) {
 				// exact attribution for "a filter's $ operand is read from the document while the same
 				// call is already changing it": with every $ operand replaced by the scalar it denotes in
 				// the original document the same call gives the specified result
@@ -390,6 +397,8 @@ func suiteMutate(tier string, seed uint64, model string) *Report {
 					xr = BuildExpr(dp)
 					if r2, e2 := run(deepCopy(c.data), false); e2 == "" && Show(r2) == body {
 						cl = "filter-root-operand-sees-modified-document"
+					} else if e2 == "" && hasSlice && varComparable && Show(r2) == varBody {
+						cl = "slice-inclusive-end+filter-root-operand-sees-modified-document"
 					}
 					xr = x
 				}
@@ -410,11 +419,13 @@ func suiteMutate(tier string, seed uint64, model string) *Report {
 			rep.Add(Disagreement{Case: desc, Where: name + "/gen", Kind: "impl-vs-spec:mutate-panic", Impl: gerrs})
 		} else if gerrs == "" && !c.one && Show(gres) != body {
 			gcl := classOf(Show(gres), false)
-			if gcl == "" && c.op >= 2 && !hasSlice && filterHasRootOperand(c.path) {
+			if gcl == "" && c.op >= 2 && filterHasRootOperand(c.path) {
 				if dp, changed, ok := defuseRootOperands(c.path, c.data); changed && ok {
 					xr = BuildExpr(dp)
 					if r2, e2 := run(toGen(deepCopy(c.data)), true); e2 == "" && Show(r2) == body {
 						gcl = "filter-root-operand-sees-modified-document"
+					} else if e2 == "" && hasSlice && varComparable && Show(r2) == varBody {
+						gcl = "slice-inclusive-end+filter-root-operand-sees-modified-document"
 					}
 					xr = x
 				}
@@ -439,14 +450,24 @@ func suiteMutate(tier string, seed uint64, model string) *Report {
 		}
 	}
 	if len(liveCands) > 0 {
-		lreqs := make([]string, len(liveCands))
-		for i, lc := range liveCands {
-			lreqs[i] = lc.req
+		var lreqs []string
+		for _, lc := range liveCands {
+			lreqs = append(lreqs, lc.req)
+			if lc.reqIncl != "" {
+				lreqs = append(lreqs, lc.reqIncl)
+			} else {
+				lreqs = append(lreqs, lc.req)
+			}
 		}
 		lans, err := RunModel(model, lreqs)
 		for i, lc := range liveCands {
-			if err == nil && lans[i] == lc.d.Impl {
+			switch {
+			case err != nil:
+			case lc.filterBD && lans[2*i] == lc.d.Impl:
 				lc.d.Class = "modify-filter-sees-modified-descendants"
+			case lc.reqIncl != "" && lans[2*i+1] == lc.d.Impl:
+				// the inclusive slice rule, nested (overlapping) selections applied in the visiting order
+				lc.d.Class = "slice-inclusive-end"
 			}
 			rep.Add(lc.d)
 		}
